@@ -37,7 +37,8 @@ RULE = ("each run is a history of 1-12 operations drawn from get (with/without q
 PROBES = ["cert_changed_detected", "unreadable_cert_presented", "redirect_hop_checked",
           "first_use_pinned", "pinned_match", "import_applied", "revoke_then_refetch", "tofu_off",
           "upload_checked", "ec_cert", "first_use_on_failing_endpoint", "overlapping_first_use", "near_miss_pin_imported", "mixed_case_host_spelling", "server_speaks_first_tls12", "failed_import_in_history",
-          "overlapping_ops_different_endpoints", "sql_fault_during_operation"]
+          "overlapping_ops_different_endpoints", "sql_fault_during_operation",
+          "chain_revisits_an_endpoint", "certificate_changed_between_two_hops_of_one_chain"]
 COMPONENTS = {
     "real": ["nauyaca.client.session.GeminiClient (get/upload/delete, redirects)",
              "nauyaca.client.protocol", "nauyaca.security.tofu.TOFUDatabase on a real sqlite file",
@@ -68,7 +69,7 @@ def run_one(ch):
     nops = 1 + ch.choose("nops", 12)
     model = {}
     st = {"hist": [], "changed": 0, "unreadable": 0, "redir": 0, "first": 0, "match": 0,
-          "import": 0, "mutation": 0, "upload": 0, "refetch": 0, "failing": 0, "concurrent": 0, "nearmiss": 0, "mixedcase": 0, "speakfirst": 0, "failedimport": 0, "overlapdiff": 0, "sqlfault": 0}
+          "import": 0, "mutation": 0, "upload": 0, "refetch": 0, "failing": 0, "concurrent": 0, "nearmiss": 0, "mixedcase": 0, "speakfirst": 0, "failedimport": 0, "overlapdiff": 0, "sqlfault": 0, "revisit": 0, "revisit_changed": 0}
     revoked = set()
 
     def endpoint(label):
@@ -100,7 +101,7 @@ def run_one(ch):
                               tofu_db_path=pathlib.Path(w.db_path))
         db = client.tofu_db if tofu_on else TOFUDatabase(pathlib.Path(w.db_path))
         for i in range(nops):
-            op = ch.choose("op", 15, [10, 4, 2, 2, 2, 1, 1, 3, 8, 4, 1, 3, 3, 3, 3])
+            op = ch.choose("op", 16, [10, 4, 2, 2, 2, 1, 1, 3, 8, 4, 1, 3, 3, 3, 3, 3])
             if op in (0, 1, 2):
                 key = endpoint("ep")
                 kind = ["get", "upload", "delete"][op]
@@ -335,6 +336,80 @@ def run_one(ch):
                 w.fail_mode[key] = ch.pick("failmode", [None, "close", "rst", "stall"], [2, 2, 2, 1])
                 st["hist"].append(f"env: {key[0]}:{key[1]} failure mode {w.fail_mode[key]}")
                 continue
+            elif op == 15 and tofu_on:
+                # one fetch whose redirect chain comes back to an endpoint it already
+                # visited (P -> P or P -> Q -> P); P may present another certificate on
+                # the later connection: every hop is a new connection and is checked
+                P = endpoint("rv")
+                via = endpoint("rvq") if ch.choose("rvvia", 2) else P
+                if any(w.fail_mode.get(k) or w.speak_first.get(k) for k in (P, via)):
+                    continue
+                A = w.servers[P].cert
+                B = pool[ch.choose("rvcert", len(pool), CW + [2] * (len(pool) - len(CW)))]
+                if ch.chance("rvsame", 0.25):
+                    B = A
+                w.servers[P].cert_queue = [A]
+                w.servers[P].cert = B
+                w.redirect_seq[P] = [via, None]
+                w.redirect_spelling.pop(P, None)
+                if via != P:
+                    w.redirect_seq[via] = [P]
+                    w.redirect_spelling.pop(via, None)
+                    seq = [(P, A), (via, w.servers[via].cert), (P, B)]
+                else:
+                    seq = [(P, A), (P, B)]
+                desc = f"get {url_of(P, '/start')} [chain " + " -> ".join(
+                    f"{k[0]}:{k[1]}({c})" for k, c in seq) + "]"
+                st["hist"].append(desc)
+                st["revisit"] += 1
+                pend = dict(model)
+                expect = ("resp", P)
+                for k, pres in seq:
+                    if pres in fx.BAD_CERTS:
+                        expect = ("unreadable", k)
+                        break
+                    pin = pend.get(k)
+                    if pin is None:
+                        pend[k] = fx.fp(pres)
+                    elif pin != fx.fp(pres):
+                        expect = ("changed", k, pin, fx.fp(pres))
+                        break
+                try:
+                    r = await client.get(desc.split(" ")[1])
+                    got = ("resp", r)
+                except CertificateChangedError as e:
+                    got = ("changed", e)
+                except Exception as e:  # noqa
+                    got = ("err", e)
+                w.redirect_seq.clear()
+                w.servers[P].cert_queue = []
+                model.clear()
+                model.update(pend)
+                ctx = dict(step=desc, history=st["hist"][-8:], got=(got[0], repr(got[1])[:300]))
+                if expect[0] == "changed":
+                    st["changed"] += 1
+                    if len(seq) and expect[1] == P and pend.get(P) == fx.fp(A) and A != B:
+                        st["revisit_changed"] += 1
+                    if got[0] == "resp":
+                        res.violate("C03/changed-certificate-accepted/revisited-endpoint",
+                                    f"{expect[1][0]}:{expect[1][1]} is pinned to {expect[2][:20]}.. "
+                                    f"but presented {expect[3][:20]}.. on a later hop of the same "
+                                    f"chain; the call returned a response", **ctx)
+                    elif got[0] != "changed":
+                        res.violate("C03/changed-certificate-wrong-error/revisited-endpoint",
+                                    "certificate change did not raise CertificateChangedError", **ctx)
+                elif expect[0] == "unreadable":
+                    if got[0] == "resp":
+                        res.violate("C03/unreadable-certificate-accepted/revisited-endpoint",
+                                    "a hop presented a certificate the client cannot parse; the "
+                                    "call returned a response", **ctx)
+                elif got[0] != "resp" or got[1].status != 20 or \
+                        f"hello from {P[0]}:{P[1]}" not in (got[1].body or ""):
+                    res.violate("C03/valid-connection-refused/revisited-endpoint",
+                                "pin matched / first use on every hop but the call did not return "
+                                "the final response", **ctx)
+                check_table(desc)
+                continue
             elif op == 14 and tofu_on:
                 # two overlapping operations on ONE client to two DIFFERENT endpoints
                 k1, k2 = endpoint("od1"), endpoint("od2")
@@ -436,7 +511,9 @@ def run_one(ch):
               "import_applied": "import", "upload_checked": "upload", "revoke_then_refetch": "refetch",
               "first_use_on_failing_endpoint": "failing", "overlapping_first_use": "concurrent", "near_miss_pin_imported": "nearmiss", "mixed_case_host_spelling": "mixedcase", "server_speaks_first_tls12": "speakfirst", "failed_import_in_history": "failedimport",
               "overlapping_ops_different_endpoints": "overlapdiff",
-              "sql_fault_during_operation": "sqlfault"}
+              "sql_fault_during_operation": "sqlfault",
+              "chain_revisits_an_endpoint": "revisit",
+              "certificate_changed_between_two_hops_of_one_chain": "revisit_changed"}
     for probe, k in st_map.items():
         if st[k]:
             res.stats[probe] += 1
